@@ -36,8 +36,7 @@ CLASS_TO_FINDING = {
     "span:barrier": "C13-barrier-span-not-reserved",
     "unconnected:kron-in-range": "C13-controlled-kron-unconnected",
     "span:kron-in-range": "C13-controlled-kron-unconnected",
-    "connector:identity-in-range": "C13-control-on-bare-wire",
-    "unconnected:identity-in-range": "C13-control-on-bare-wire",
+    "connector:kron-in-range": "C13-controlled-kron-unconnected",
     "loop-brace:empty-loop-body": "C13-empty-loop-body-brace",
 }
 for _k in ("symbol", "connector", "order", "unconnected", "span", "missing", "loop-brace", "extra"):
